@@ -731,9 +731,10 @@ func GenProgramOpt(g *Tape, size int, allowMut bool) *ProgSpec {
 
 type CtxDesc struct {
 	Variant   int  `json:"variant"`
-	MaybeFail bool `json:"maybe_fail,omitempty"` // fn_maybe() returns an error
-	BadKey    bool `json:"bad_key,omitempty"`    // contains a key that is not an identifier
-	Clash     bool `json:"clash,omitempty"`      // contains the key "xm": rejected by templates that export a macro of that name
+	MaybeFail bool `json:"maybe_fail,omitempty"`       // fn_maybe() returns an error
+	BadKey    bool `json:"bad_key,omitempty"`          // contains a key that is not an identifier
+	Clash     bool `json:"clash,omitempty"`            // contains the key "xm": rejected by templates that export a macro of that name
+	MacroKeys bool `json:"macro_named_keys,omitempty"` // carries plain values under names that programs give to imported macros
 }
 
 type simUser struct {
@@ -801,13 +802,15 @@ func (s simStringer) String() string { return "Stringer(" + s.s + ")" }
 
 func GenCtxDesc(g *Tape) CtxDesc {
 	d := CtxDesc{Variant: g.Draw(3)}
-	switch g.Draw(9) {
+	switch g.Draw(10) {
 	case 6:
 		d.MaybeFail = true
 	case 7:
 		d.BadKey = true
 	case 8:
 		d.Clash = true
+	case 9:
+		d.MacroKeys = true
 	}
 	return d
 }
@@ -878,6 +881,11 @@ func (w *World) BuildCtx(d CtxDesc) pongo2.Context {
 	}
 	if d.Clash {
 		ctx["xm"] = "clashes with the exported macro xm"
+	}
+	if d.MacroKeys {
+		// plain values under the names that programs give to imported macros: shadowed where an
+		// import has run, ordinary variables everywhere else - never a reason to reject the context
+		ctx["mbx"], ctx["m_c"], ctx["m_a"] = "ctx-mbx", "ctx-m_c", "ctx-m_a"
 	}
 	if v == 2 {
 		ctx["glob"] = "ctx-overrides-global" // a context key shadows the set's global of the same name
